@@ -34,6 +34,10 @@ func (m *c17member) Init(args ...any) error {
 	m.w.initOrder = append(m.w.initOrder, m.idx)
 	m.w.mu.Unlock()
 	if fail {
+		// a failing init that takes a moment: the members started before it are asleep by then
+		if d := m.w.failDelay; d > 0 {
+			time.Sleep(d)
+		}
 		return errors.New("init failed")
 	}
 	return nil
@@ -51,6 +55,7 @@ type c17world struct {
 	name      gen.Atom
 	n         int
 	failAt    int
+	failDelay time.Duration
 	initOrder []int
 	starts    []gen.ApplicationMode
 	terms     []error
@@ -193,6 +198,7 @@ func runC17(c *Ctx) {
 				if c.Rng.Chance(1, 7) {
 					w.failAt = c.Rng.Intn(w.n)
 					fail = fmt.Sprint(w.failAt)
+					w.failDelay = []time.Duration{0, 2 * time.Millisecond}[c.Rng.Intn(2)]
 				}
 				w.initOrder = nil
 				w.mu.Unlock()
@@ -427,49 +433,189 @@ func c17witnessD6(c *Ctx, k *K4) {
 	k.Node.ApplicationUnload(w.name)
 }
 
-// c17depends: dependencies are started first.
+// c17depends: dependencies are started first. Random acyclic dependency graphs over 2-5 applications (some not
+// loaded, some whose own start fails), histories of ApplicationStart / StopForce calls; after every call the result,
+// the set of running applications and the Start callbacks of that call are compared with Model/AppDeps (driver
+// "appdeps"); oracle: after a successful start every direct dependency is running.
 func c17depends(c *Ctx, k *K4) {
 	r := c.R
-	var order []string
-	var mu sync.Mutex
-	mk := func(name gen.Atom, deps []gen.Atom) gen.ApplicationBehavior {
-		return &c17depApp{name: name, deps: deps, order: &order, mu: &mu}
+	rounds := c.N(40, 1500)
+	var lines, wants []string
+	var meta []map[string]interface{}
+	for it := 0; it < rounds; it++ {
+		n := 2 + c.Rng.Intn(4)
+		var order []int
+		var mu sync.Mutex
+		names := make([]gen.Atom, n)
+		loaded := make([]bool, n)
+		fails := make([]bool, n)
+		deps := make([][]int, n)
+		for i := 0; i < n; i++ {
+			names[i] = k.NextName("c17dep")
+			loaded[i] = !c.Rng.Chance(1, 10)
+			fails[i] = c.Rng.Chance(1, 8)
+			if it < 3 { // the first graphs are fully loaded and healthy (diamonds and chains)
+				loaded[i], fails[i] = true, false
+			}
+			if i > 0 {
+				nd := c.Rng.Intn(4)
+				perm := c.Rng.Perm(i)
+				for j := 0; j < nd && j < len(perm); j++ {
+					deps[i] = append(deps[i], perm[j])
+				}
+			}
+		}
+		bitsOf := func(b []bool) string {
+			s := ""
+			for _, x := range b {
+				if x {
+					s += "1"
+				} else {
+					s += "0"
+				}
+			}
+			return s
+		}
+		var ds []string
+		for i := range deps {
+			ds = append(ds, natListOrdered(deps[i]))
+		}
+		specLine := fmt.Sprintf("spec %s %s %s", bitsOf(loaded), strings.Join(ds, ";"), bitsOf(fails))
+		lines, wants = append(lines, specLine), append(wants, "ok")
+		meta = append(meta, nil)
+		for i := 0; i < n; i++ {
+			if !loaded[i] {
+				continue
+			}
+			var dn []gen.Atom
+			for _, d := range deps[i] {
+				dn = append(dn, names[d])
+			}
+			i := i
+			app := &c17depApp{name: names[i], deps: dn, fail: fails[i], started: func() { mu.Lock(); order = append(order, i); mu.Unlock() }}
+			if _, err := k.Node.ApplicationLoad(app); err != nil {
+				r.Disagree("c17dep.load", err.Error(), nil)
+				return
+			}
+		}
+		running := func() []int {
+			var rs []int
+			for i := 0; i < n; i++ {
+				if info, err := k.Node.ApplicationInfo(names[i]); err == nil && info.State == gen.ApplicationStateRunning {
+					rs = append(rs, i)
+				}
+			}
+			return rs
+		}
+		nops := 2 + c.Rng.Intn(5)
+		var hist []string
+		for o := 0; o < nops; o++ {
+			if rs := running(); len(rs) > 0 && c.Rng.Chance(1, 3) {
+				a := rs[c.Rng.Intn(len(rs))]
+				k.Node.ApplicationStopForce(names[a])
+				waitUntil(2*time.Second, func() bool {
+					info, err := k.Node.ApplicationInfo(names[a])
+					return err != nil || info.State == gen.ApplicationStateLoaded
+				})
+				lines, wants = append(lines, fmt.Sprintf("stop %d", a)), append(wants, "ok")
+				meta = append(meta, nil)
+				hist = append(hist, fmt.Sprintf("stop %d", a))
+				continue
+			}
+			a := c.Rng.Intn(n)
+			if c.Rng.Chance(1, 2) {
+				a = n - 1 - c.Rng.Intn((n+1)/2) // the applications with the most dependencies
+			}
+			mu.Lock()
+			order = nil
+			mu.Unlock()
+			err, hung := c17call(func() error { return k.Node.ApplicationStart(names[a], gen.ApplicationOptions{}) })
+			if hung {
+				r.Violation("C17/depends-start-hangs", "ApplicationStart did not return within 8 s", map[string]interface{}{"spec": specLine, "history": hist})
+				return
+			}
+			res := "failed"
+			switch err {
+			case nil:
+				res = "ok"
+			case gen.ErrApplicationRunning:
+				res = "running"
+			case gen.ErrApplicationUnknown:
+				res = "unknown"
+			case gen.ErrApplicationDepends:
+				res = "depends"
+			}
+			rs := running()
+			mu.Lock()
+			ord := append([]int(nil), order...)
+			mu.Unlock()
+			hist = append(hist, fmt.Sprintf("start %d", a))
+			rp := map[string]interface{}{"spec": specLine, "history": append([]string(nil), hist...)}
+			if res == "ok" || res == "running" {
+				isRun := map[int]bool{}
+				for _, x := range rs {
+					isRun[x] = true
+				}
+				for _, d := range deps[a] {
+					if !isRun[d] {
+						r.Violation("C17/depends-not-started", fmt.Sprintf("ApplicationStart of application %d returned %s but its dependency %d is not running (dependencies %v, running %v)", a, res, d, deps[a], rs), rp)
+					}
+				}
+				if res == "ok" && (len(ord) == 0 || ord[len(ord)-1] != a) {
+					r.Violation("C17/depends-order", fmt.Sprintf("the Start callback of application %d was not the last one of its start (callbacks %v)", a, ord), rp)
+				}
+			}
+			lines = append(lines, fmt.Sprintf("start %d", a))
+			wants = append(wants, fmt.Sprintf("%s running=%s order=%s", res, natList(rs), natListOrdered(ord)))
+			meta = append(meta, rp)
+		}
+		r.Case("depends/"+specLine+"/"+strings.Join(hist, ","), n >= 3 && len(hist) >= 2)
+		r.Count("depends")
+		for i := 0; i < n; i++ {
+			if loaded[i] {
+				k.Node.ApplicationStopForce(names[i])
+			}
+		}
+		for i := 0; i < n; i++ {
+			if loaded[i] {
+				i := i
+				waitUntil(2*time.Second, func() bool {
+					info, err := k.Node.ApplicationInfo(names[i])
+					return err != nil || info.State == gen.ApplicationStateLoaded
+				})
+				k.Node.ApplicationUnload(names[i])
+			}
+		}
 	}
-	a, b, d := k.NextName("c17depA"), k.NextName("c17depB"), k.NextName("c17depC")
-	k.Node.ApplicationLoad(mk(d, nil))
-	k.Node.ApplicationLoad(mk(b, []gen.Atom{d}))
-	k.Node.ApplicationLoad(mk(a, []gen.Atom{b, d}))
-	if err := k.Node.ApplicationStart(a, gen.ApplicationOptions{}); err != nil {
-		r.Violation("C17/depends-start", "starting an application with loaded dependencies failed: "+err.Error(), nil)
+	outs, err := Model("appdeps", lines)
+	if err != nil {
+		r.Disagree("appdeps.driver", err.Error(), nil)
 		return
 	}
-	mu.Lock()
-	got := strings.Join(order, ",")
-	mu.Unlock()
-	want := string(d) + "," + string(b) + "," + string(a)
-	if got != want {
-		r.Violation("C17/depends-order", fmt.Sprintf("Start callbacks ran in order %s, expected dependencies first: %s", got, want), nil)
-	}
-	r.Case("depends", true)
-	for _, n := range []gen.Atom{a, b, d} {
-		k.Node.ApplicationStopForce(n)
+	for i := range lines {
+		if outs[i] != wants[i] {
+			r.Disagree("K2 Model.AppDeps ~ node.ApplicationStart (dependencies)", fmt.Sprintf("%q: model %q, implementation %q", lines[i], outs[i], wants[i]), meta[i])
+			break
+		}
 	}
 }
 
 type c17depApp struct {
-	name  gen.Atom
-	deps  []gen.Atom
-	order *[]string
-	mu    *sync.Mutex
+	name    gen.Atom
+	deps    []gen.Atom
+	fail    bool
+	started func()
 }
 
 func (a *c17depApp) Load(node gen.Node, args ...any) (gen.ApplicationSpec, error) {
 	return gen.ApplicationSpec{Name: a.name, Mode: gen.ApplicationModeTemporary, Depends: gen.ApplicationDepends{Applications: a.deps},
-		Group: []gen.ApplicationMemberSpec{{Name: gen.Atom(string(a.name) + "_m"), Factory: func() gen.ProcessBehavior { return &c17member{w: &c17world{failAt: -1}} }}}}, nil
+		Group: []gen.ApplicationMemberSpec{{Name: gen.Atom(string(a.name) + "_m"), Factory: func() gen.ProcessBehavior {
+			w := &c17world{failAt: -1}
+			if a.fail {
+				w.failAt = 0
+			}
+			return &c17member{w: w}
+		}}}}, nil
 }
-func (a *c17depApp) Start(mode gen.ApplicationMode) {
-	a.mu.Lock()
-	*a.order = append(*a.order, string(a.name))
-	a.mu.Unlock()
-}
+func (a *c17depApp) Start(mode gen.ApplicationMode) { a.started() }
 func (a *c17depApp) Terminate(reason error) {}
